@@ -126,7 +126,11 @@ class RefHMM:
         return abs(v - thr) <= 1e-9 * max(abs(thr), 1e-300)
 
     def admissible(self, lp, length, d):
-        if self._near(lp / length, self.min_lpn):
+        # the normalised probability is computed by the reference with its own formula and may differ from the
+        # implementation's by an ulp: a value within 1e-9 relative of the threshold - INCLUDING exactly on it - is borderline
+        # (distances come from the map's own primitive, so exact equality with a distance threshold is judged)
+        v = lp / length
+        if not math.isinf(self.min_lpn) and abs(v - self.min_lpn) <= 1e-9 * max(abs(self.min_lpn), 1e-300):
             self.borderline = True
         if lp / length < self.min_lpn:
             return False
